@@ -129,6 +129,33 @@ func Parse(b []byte) (h Header, raw, rest []byte, err error) {
 	return h, b[hl:h.FrameLength], b[h.FrameLength:], nil
 }
 
+// ParseHeader reads only the 7 header bytes (adts_fixed_header + adts_variable_header) of b, whatever
+// aac_frame_length says about the bytes that follow: a caller can then judge the advertised length itself.
+func ParseHeader(b []byte) (h Header, err error) {
+	if len(b) < 7 {
+		return h, fmt.Errorf("short header: %d", len(b))
+	}
+	r := &bitr{b: b[:7]}
+	if r.get(12) != 0xFFF {
+		return h, fmt.Errorf("no syncword")
+	}
+	h.ID = uint8(r.get(1))
+	h.Layer = uint8(r.get(2))
+	h.ProtectionAbsent = uint8(r.get(1))
+	h.Profile = uint8(r.get(2))
+	h.SFI = uint8(r.get(4))
+	h.Private = uint8(r.get(1))
+	h.Channels = uint8(r.get(3))
+	h.Original = uint8(r.get(1))
+	h.Home = uint8(r.get(1))
+	h.CopyID = uint8(r.get(1))
+	h.CopyStart = uint8(r.get(1))
+	h.FrameLength = uint16(r.get(13))
+	h.Fullness = uint16(r.get(11))
+	h.Blocks = uint8(r.get(2))
+	return h, nil
+}
+
 // ASC packing: audioObjectType(5) samplingFrequencyIndex(4) channelConfiguration(4) + 3 GASpecificConfig bits.
 func PackASC(object, sfi, channels, tail uint8) [2]byte {
 	w := &bitw{}
